@@ -243,11 +243,23 @@ impl XmlReader {
         doc: &mut RustDocument,
         child: Node<'n, 'n>,
     ) -> Result<(), WriterError> {
-        let schema = child
-            .children()
-            .find(|n| n.tag_name().name() == "schema")
-            .ok_or(WriterError::SchemaNotFound)?;
-        Self::read_xsd(schema, files, doc)?;
+        // every inline schema declares its components in ITS target namespace, which need not be that of the
+        // definitions; messages, port types and bindings are read in the namespace of the definitions again
+        let definitions_namespace = doc.current_target_namespace.clone();
+        let mut found = false;
+        for schema in child.children().filter(|n| n.tag_name().name() == "schema") {
+            found = true;
+            if let Some(target_namespace) = schema.attribute("targetNamespace") {
+                doc.switch_to_target_namespace(target_namespace);
+            }
+            Self::read_xsd(schema, files, doc)?;
+            if let Some(namespace) = &definitions_namespace {
+                doc.switch_to_target_namespace(&namespace.namespace);
+            }
+        }
+        if !found {
+            return Err(WriterError::SchemaNotFound);
+        }
         Ok(())
     }
 
